@@ -13,6 +13,21 @@ CLAIMED = {
          "TLC; the harness event logger; foreign streams are sampled (boundary tables + seeded random), not enumerated", "5 C06"),
 }
 
+CLAIMED.update({
+ "C01": (MC, "TLC: MC_Chunk (library header-compression policy refines the legal sender; reference receiver delivers exactly) + trace validation of library serializer -> library deserializer runs under several input partitions (Trace_Chunk, intent oracle)",
+         "Design level: the library's format/csid policy, transcribed, only ever picks encodings the protocol allows and the reference receiver reassembles them exactly (exhaustive, small constants). Code level: for generated message sequences (boundary tables, all flags, size changes, payloads up to 16,777,215 bytes) the messages returned by every input call must be exactly the intended messages whose last byte that call delivered; every accepted message must yield a non-empty packet.",
+         "TLC; harness logger; message sequences are boundary-table driven + seeded random, not enumerated; S1 constants: words mod 4, lengths {0,1,3}, chunk sizes {1,2}, 2 messages (quick)", "5 C01"),
+ "C07": (MC, "TLC trace validation: every byte the library serializer returns is parsed by the TLA+ ChunkWire module (RTMP 5.3.1 layout) and run through the reference receiver ChunkProto!Rx; decoded header/payload must equal the intended message",
+         "The decoder that judges the library's output is written in TLA+ from the protocol document and shares no code or constant with the library, so a symmetric change to serializer and deserializer is rejected. Checks csid minimality, predecessor rule, 24-bit saturation/extended field, payload cut by the announced chunk size, in-band size announcement before use.",
+         "TLC; harness logger; ChunkWire/ChunkProto as a faithful reading of RTMP 1.0 section 5.3.1", "5 C07"),
+ "C08": (MC, "TLC: MC_Chunk with dropped droppable messages (and a negative control without the rule) + Trace_Chunk exploring ALL 2^k subsets of droppable packets of each recorded serializer run",
+         "The drop decision is left nondeterministic in the trace specification, so TLC explores every subset of omitted droppable packets for each recorded run; each surviving packet must decode to its own message. The library's deserializer is additionally run on sampled subsets.",
+         "TLC; harness logger", "5 C08"),
+ "C16": (MC, "TLC: MC_Chunk with Interleave = TRUE + trace validation of harness-encoded interleaved streams fed to the library deserializer",
+         "Design level: per-csid reassembly delivers every interleaving exactly. Code level: interleaved multi-chunk messages on 2-4 csids (with in-band size changes in flight), validated by the reference receiver and compared with the library's output per input call.",
+         "TLC; harness logger; interleavings sampled", "5 C16"),
+})
+
 NOT_YET = {}
 
 def main():
